@@ -10,8 +10,17 @@ LEVEL = 'model_checking'
 def run(ctx):
     session_check.run(ctx, 'C14')
     quick = ctx.tier == 'quick'
-    res, stats, found = keys_c14.run(ctx, 1500 if quick else 15000, 4 if quick else 6, ctx.seed, check_level=6 if quick else 9)
+    # graph of 5 (quick) / 7 (thorough) calls with q never NULL (a NULL key part is covered by p); the exhaustive check of the
+    # specification itself runs over the full alphabet two levels deeper
+    res, stats, found = keys_c14.run(ctx, 1500 if quick else 15000, 6 if quick else 8, ctx.seed, check_level=8 if quick else 10, qnull=False)
     keys_c14.report(ctx, 'C14', res, stats, found)
+    if not quick:
+        res, stats, found = keys_c14.run(ctx, 5000, 5, ctx.seed + 1, check_level=6, qnull=True)
+        for cat, what, trace in found:
+            if cat in ('keys', 'crash'):
+                ctx.mismatch('C14:compkey:%s:%s:%s' % (cat, trace[-1].get('op'), trace[-1].get('out')), what, {'keys_trace': trace})
+        ctx.coverage['traces_validated_against_impl'] += stats['behaviours']
+        ctx.coverage['composite_key_model_full_alphabet'] = stats
 
 
 def replay(ctx, rep):
